@@ -263,6 +263,41 @@ def build(tier="quick", seed=0):
 
             pack.add(Obligation(name, run, replay=lambda w: {"call": "c08_reader", "args": {"expr": w.get("expr"), "engine": w.get("engine")}}, functions=fu + ("flow.record.stream:RecordStreamReader.__iter__",), mode="one reader over a concrete stream of four record types"))
 
+    # plain JSON lines (no descriptors): a line that lacks a key is a record WITHOUT that field, whatever the lines before it looked like
+    JSON_LINES = ['{"id": 1, "user": "root", "port": 22}\n', '{"id": 2}\n', '{"id": 3, "user": "www", "port": 80}\n', '{"id": 4, "port": 443}\n']
+    JSON_CASES = {"r.user != 'root'": [3], "r.user == None": [], "r.port >= 80": [3, 4], "not (r.user == 'www')": [1, 2, 4], "r.port < 100 or r.user == 'nobody'": [1, 3], "r.user not in ['root']": None}
+    for eng in ("Selector", "CompiledSelector"):
+        for expr, want in JSON_CASES.items():
+            if want is None:
+                continue
+            name = f"C08.reader.json[{eng}, {expr}]"
+
+            def th(eng=eng, expr=expr):
+                from pyvc.models.files import AbsFile
+
+                jf_ = it.loader.import_module("flow.record.adapter.jsonfile")
+                rd = it.call(jf_.g["JsonfileReader"], [AbsFile(it, list(JSON_LINES), mode="r")], {"selector": it.call(sel.g[eng], [expr], {})})
+                try:
+                    return [it.unbase(o.attrs["id"]) for o in it.iterate(rd)]
+                except PyRaise as e:
+                    return f"raised {e.cls_name}"
+
+            pack.add(Obligation(name, lambda tier, name=name, th=th, want=want, expr=expr: prove_paths(name, th, lambda p, want=want: (p.value == want, f"plain JSON lines filtered with {expr!r}: ids {p.value}, the lines that have the field and satisfy the condition are {want}")),
+                                replay=lambda w, eng=eng, expr=expr, want=want: {"call": "c08_reader_json", "args": {"engine": eng, "expr": expr, "want": want}}, functions=fu + ("flow.record.adapter.jsonfile:JsonfileReader.__iter__",), mode="four plain JSON lines, richer and poorer ones alternating"))
+
+    # the helper functions read the reserved fields like any other field the record has
+    for eng in ("Selector", "CompiledSelector"):
+        for expr, want in (("field_equals(r, ['_source'], ['src-a'])", True), ("field_contains(r, ['_classification', 'nosuch'], ['secret'])", True), ("field_regex(r, ['_source'], '^src')", True), ("field_equals(r, ['_source'], ['other'])", False)):
+            name = f"C08.helper.reserved[{eng}, {expr}]"
+
+            def th(eng=eng, expr=expr):
+                D = it.call(RD, ["c08/meta", [("string", "s")]], {})
+                rec = it.call(D, [], {"s": "x", "_source": "src-a", "_classification": "top secret"})
+                return bool(it.truth(it.call(it.getattr_(it.call(sel.g[eng], [expr], {}), "match"), [rec], {})))
+
+            pack.add(Obligation(name, lambda tier, name=name, th=th, want=want, expr=expr: prove_paths(name, th, lambda p, want=want: (p.value is want, f"{expr!r} on a record with _source='src-a', _classification='top secret': {p.value}, expected {want}")),
+                                replay=lambda w, eng=eng, expr=expr, want=want: {"call": "c08_helper_reserved", "args": {"engine": eng, "expr": expr, "want": want}}, functions=fu, mode="the reserved fields through the three helper functions"))
+
     # an attribute of a field the record lacks (r.ts.year on a record without ts) is an operand like the missing field itself: the comparison is false, no error
     for eng in ("Selector", "CompiledSelector"):
         for expr in ("r.missing.year == 2020", "r.missing.year != 2020", "5 < r.missing.year", "r.missing.a.b >= 1", "r.missing.netloc in ['h', 'k']", "r.missing.year == r.n", "r.n > 0 and r.missing.year == 1", "r.missing.year <= 5 or r.missing.month > 1"):
